@@ -224,30 +224,32 @@ type Case struct {
 	shInst   *instance.Instance
 	shCtrl   *controller.Controller
 
-	lines        []string // op lines of this case (replay of an oracle violation)
-	obs          []string
-	viols        []violation
-	diverged     bool // compacted object and its reference have diverged (reported once per case)
-	specOff      bool // spec comparison no longer meaningful (after a compaction or a reported difference)
-	removedMsgs  []removedMsg
-	roundLowered bool
-	c02          bool           // evaluate the C02 certificate oracle after every controller op
-	sigSeen      map[string]int // signature bytes + signer list of valid delivered messages -> mid (abs.go, `sigof=`)
-	c07          bool           // evaluate the step-level liveness oracles (c07.go)
-	armedH       uint64         // the single round timer of the operator: armed for (armedH, armedR), not yet fired
-	armedR       uint64
-	armedOK      bool
-	stepViols    []violation
-	sentProps    map[propKey]bool
-	refused      []refusedProp
-	firedUnarmed bool            // a ctimeout op named a timer that was not the live one
-	sentAll      map[msgKey]bool // single-signer messages this operator broadcast
-	gotSigned    []msgKey        // validly signed single-signer messages of OTHER operators it was fed (replay consistency)
-	nf           string          // network fault ("a" | "b") to inject into the next op's broadcast
-	role         int             // 2 = controller of the second duty role of a multi-node schedule (crossrole.go)
-	roundBefore  specqbft.Round
-	lastRet      *specqbft.SignedMessage
-	tags         []string // distribution tags collected while the case ran
+	lines           []string // op lines of this case (replay of an oracle violation)
+	obs             []string
+	viols           []violation
+	diverged        bool // compacted object and its reference have diverged (reported once per case)
+	specOff         bool // spec comparison no longer meaningful (after a compaction or a reported difference)
+	removedMsgs     []removedMsg
+	roundLowered    bool
+	c02             bool           // evaluate the C02 certificate oracle after every controller op
+	sigSeen         map[string]int // signature bytes + signer list of valid delivered messages -> mid (abs.go, `sigof=`)
+	c07             bool           // evaluate the step-level liveness oracles (c07.go)
+	armedH          uint64         // the single round timer of the operator: armed for (armedH, armedR), not yet fired
+	armedR          uint64
+	armedOK         bool
+	stepViols       []violation
+	sentProps       map[propKey]bool
+	refused         []refusedProp
+	acceptedByRound map[specqbft.Round][32]byte // root of the proposal accepted per round (instance of c.height)
+	secondProposal  bool                        // two different proposals were accepted for one round
+	firedUnarmed    bool                        // a ctimeout op named a timer that was not the live one
+	sentAll         map[msgKey]bool             // single-signer messages this operator broadcast
+	gotSigned       []msgKey                    // validly signed single-signer messages of OTHER operators it was fed (replay consistency)
+	nf              string                      // network fault ("a" | "b") to inject into the next op's broadcast
+	role            int                         // 2 = controller of the second duty role of a multi-node schedule (crossrole.go)
+	roundBefore     specqbft.Round
+	lastRet         *specqbft.SignedMessage
+	tags            []string // distribution tags collected while the case ran
 }
 
 func (c *Case) valCheck(data []byte) error {
